@@ -562,7 +562,7 @@ def all_paths(node):
 #   (top-level bytes/str, inside nested structs, inside list elements - there every enclosing container is long as well).
 LONG_FRAGS = {"quick": [5, 9, 17, 33, 52, 65, 101, 129],
               "thorough": [4, 5, 8, 9, 10, 16, 17, 20, 32, 33, 50, 51, 52, 64, 65, 100, 101, 128, 129, 200, 256, 257, 258]}
-LONG_SIZES = {"quick": [65537], "thorough": [1024, 4096, 8192, 16384, 32768, 65535, 65536, 65537, 131073, 200000]}
+LONG_SIZES = {"quick": [65537], "thorough": [1024, 4096, 8192, 16384, 32768, 65535, 65536, 65537, 131073]}
 LIST_COUNTS = [4, 16, 64, 255, 256, 257, 1025]
 
 
@@ -633,7 +633,7 @@ def long_cases(ti, t, tier, seed):
     else:
         pick = longable
     ladder = [255 * k + d for k in LONG_FRAGS[tier] for d in (-1, 0, 1)]
-    per_path = 1 if tier == "quick" else 3
+    per_path = 1 if tier == "quick" else 2
     for path in pick:
         tag, n = node_at(node, path)
         for _ in range(per_path):
@@ -1897,7 +1897,7 @@ def gen_raw(tier, r):
     # many fragments of one value (round 8): k full fragments, then nothing / a short fragment of the same type / another item /
     # a separator; with a leading item; payload bytes that look like headers.  (No draw from r: the stream above is unchanged.)
     for ki, k in enumerate(LONG_FRAGS[tier]):
-        for tag in (((1,), (0,))[ki % 4 == 2] if tier == "quick" else (1, 0, 255)):
+        for tag in (((1,), (0,))[ki % 4 == 2] if tier == "quick" else ((1, 0, 255) if k <= 65 else (1, 0)[ki % 2:ki % 2 + 1])):
             if tier == "quick" and ki % 2 == 1 and k < 100:
                 continue
             body = b"".join(bytes([tag, 255]) + bytes([(tag + i + j) & 0xFF for i in range(255)]) for j in range(k))
@@ -1905,7 +1905,7 @@ def gen_raw(tier, r):
                     (b"", bytes([tag, 1, 9]), bytes([tag ^ 1, 1, 9]), b"\x00\x00" + bytes([tag, 1, 5]), bytes([tag]), bytes([tag, 255]) + bytes(100))
             for tail in tails:
                 cases.append(body + tail)
-            if tier != "quick":
+            if tier != "quick" and k <= 129:
                 cases.append(b"\x02\x01\x05" + body)
                 cases.append(b"".join(bytes([tag, 255]) + bytes([tag, 255]) * 127 + bytes([tag]) for _ in range(k)) + bytes([tag, 2, tag, 255]))
     return cases
